@@ -648,6 +648,7 @@ func getBufferReturnsLen(f *ssa.Function) bool {
 
 type r4state struct {
 	cons  aff
+	unver map[ssa.Value]bool // limit readers drained with io.Copy whose exhaustion has not been tested yet
 	lims  map[ssa.Value]aff // undrained LimitReaders -> limit
 	dirty string            // non-empty: why consumption is unknown
 	eq    map[ssa.Value]int64
@@ -658,6 +659,12 @@ func (s *r4state) clone() *r4state {
 	n := &r4state{cons: s.cons, dirty: s.dirty, lims: map[ssa.Value]aff{}, eq: map[ssa.Value]int64{}, neq: map[ssa.Value]map[int64]bool{}}
 	for k, v := range s.lims {
 		n.lims[k] = v
+	}
+	if len(s.unver) > 0 {
+		n.unver = map[ssa.Value]bool{}
+		for k := range s.unver {
+			n.unver[k] = true
+		}
 	}
 	for k, v := range s.eq {
 		n.eq[k] = v
@@ -681,6 +688,12 @@ func (s *r4state) key() string {
 	}
 	sort.Strings(ls)
 	parts = append(parts, ls...)
+	var us []string
+	for k := range s.unver {
+		us = append(us, "unver:"+k.Name())
+	}
+	sort.Strings(us)
+	parts = append(parts, us...)
 	var es []string
 	for k, v := range s.eq {
 		es = append(es, fmt.Sprintf("%s==%d", k.Name(), v))
@@ -764,6 +777,10 @@ func r4summarise(p *Prog, f *ssa.Function, rpIdx int, depth int) r4summary {
 					ok, why = false, "the helper leaves an io.LimitReader undrained on a path that may succeed"
 					break
 				}
+				if len(st.unver) > 0 {
+					ok, why = false, "the helper drains the rest of the frame with io.Copy, which stops silently when the stream ends, and can succeed without having tested the limit reader's N: a truncated frame yields a message instead of an error"
+					break
+				}
 				c := st.cons
 				if k, has := st.eq[L]; has && L != nil {
 					c = aff{0, c.A*k + c.B, true}
@@ -825,6 +842,10 @@ func readerEscapes(rp *ssa.Parameter) string {
 			for _, rr := range *x.Referrers() {
 				if _, ok := rr.(ssa.CallInstruction); !ok {
 					if _, isdbg := rr.(*ssa.DebugRef); !isdbg {
+						// &io.LimitedReader{R: r, N: n}: tracked as a limit reader
+						if st, isSt := rr.(*ssa.Store); isSt && limitedReaderField(st.Addr) == "R" {
+							continue
+						}
 						return "the reader is used by something other than a call: consumption cannot be tracked"
 					}
 				}
@@ -958,6 +979,11 @@ func c04R4(r *Report, read *ssa.Function, L ssa.Value) {
 				why = append(why, "an io.LimitReader over the frame is not drained (io.Copy(io.Discard, lr)) before the successful return: the rest of the frame stays in the stream")
 				continue
 			}
+			if len(s.unver) > 0 {
+				okAll = false
+				why = append(why, "the rest of the frame is drained with io.Copy, which stops silently when the stream ends, and the limit reader's N is not tested afterwards: a truncated frame yields a message instead of an error")
+				continue
+			}
 			// want: cons == 4 + L under s.eq[L]
 			if k, has := s.eq[L]; has {
 				got := s.cons.A*k + s.cons.B
@@ -1010,6 +1036,24 @@ func r4edge(s *r4state, cond ssa.Value, pol bool, L ssa.Value) bool {
 	bo, ok := g.Cond.(*ssa.BinOp)
 	if !ok {
 		return true
+	}
+	// lr.N == 0 (in any of its spellings) on this edge: the drained limit reader was exhausted
+	if len(s.unver) > 0 {
+		if op, x, y, okc := cmpFact(g); okc {
+			if z, okz := constInt(y); okz && z == 0 && (op == token.EQL || op == token.LEQ) {
+				if ld, okl := stripIntConv(x).(*ssa.UnOp); okl && ld.Op == token.MUL && limitedReaderField(ld.X) == "N" {
+					base := ld.X.(*ssa.FieldAddr).X
+					if ta, isTA := base.(*ssa.TypeAssert); isTA {
+						base = ta.X
+					}
+					for k := range s.unver {
+						if k == base || strip(k) == strip(base) {
+							delete(s.unver, k)
+						}
+					}
+				}
+			}
+		}
 	}
 	if bo.Op != token.EQL && bo.Op != token.NEQ {
 		// ordering on the frame length against a constant: use to refute eq facts
@@ -1074,6 +1118,29 @@ func r4edge(s *r4state, cond ssa.Value, pol bool, L ssa.Value) bool {
 }
 
 func r4apply(p *Prog, s *r4state, instr ssa.Instruction, rp ssa.Value, L ssa.Value, depth int) {
+	if st, isSt := instr.(*ssa.Store); isSt && limitedReaderField(st.Addr) == "N" {
+		fa := st.Addr.(*ssa.FieldAddr)
+		a := affineOf(st.Val, L, 0)
+		if !a.OK {
+			s.dirty = "io.LimitedReader with a limit that is not affine in the frame length"
+			return
+		}
+		// only when its R is the tracked reader
+		isOurs := false
+		for _, ref := range *fa.X.Referrers() {
+			if f2, ok := ref.(*ssa.FieldAddr); ok && limitedReaderField(f2) == "R" {
+				for _, r2 := range *f2.Referrers() {
+					if st2, ok := r2.(*ssa.Store); ok && strip(st2.Val) == rp {
+						isOurs = true
+					}
+				}
+			}
+		}
+		if isOurs {
+			s.lims[fa.X] = a
+		}
+		return
+	}
 	c, ok := instr.(*ssa.Call)
 	if !ok {
 		if ci, isci := instr.(ssa.CallInstruction); isci {
@@ -1102,6 +1169,12 @@ func r4apply(p *Prog, s *r4state, instr ssa.Instruction, rp ssa.Value, L ssa.Val
 	if usesLim != nil && isStdCall(c, "io", "", "Copy") && len(c.Call.Args) == 2 && (c.Call.Args[1] == usesLim || strip(c.Call.Args[1]) == usesLim) {
 		s.cons = affAdd(s.cons, s.lims[usesLim])
 		delete(s.lims, usesLim)
+		// io.Copy stops silently at the end of the stream: the frame was consumed entirely only if the limit is
+		// then found exhausted
+		if s.unver == nil {
+			s.unver = map[ssa.Value]bool{}
+		}
+		s.unver[usesLim] = true
 		return
 	}
 	if !usesR {
@@ -1203,4 +1276,20 @@ func c04R6(r *Report, p *Prog) {
 	r.Fn(f)
 	n := checkStrided(r, "R6", f)
 	r.Sentinel("R6", n, 2)
+}
+
+// limitedReaderField: addr is &x.F for x of type io.LimitedReader; returns F's name.
+func limitedReaderField(addr ssa.Value) string {
+	fa, ok := addr.(*ssa.FieldAddr)
+	if !ok {
+		return ""
+	}
+	n := namedOf(derefType(fa.X.Type()))
+	if n == nil || n.Obj().Pkg() == nil || n.Obj().Pkg().Path() != "io" || n.Obj().Name() != "LimitedReader" {
+		return ""
+	}
+	if fv := fieldVar(fa); fv != nil {
+		return fv.Name()
+	}
+	return ""
 }
